@@ -73,7 +73,7 @@ def probes():
             "payload_in_type", "payload_in_prose", "payload_in_decorator", "module_level_side_effect_code_present",
             "gen_from_file", "gen_wrote_output", "doctrans", "doctrans_rewrote_file", "sync", "sync_properties",
             "pure_parse_ops", "pure_emit_ops", "error_path_injection_fired", "io_fault_fired",
-            "input_eval_exception_exercised", "prepend_exception_exercised", "torn_input_reused", "black_absent"]
+            "input_eval_exception_exercised", "prepend_exception_exercised", "torn_input_reused", "black_absent", "route_parser_ops"]
 
 
 # ------------------------------------------------------------------------------------ sentinels
@@ -149,6 +149,9 @@ SERIALISED = (("pickle.loads", "b\"cbuiltins\\nopen\\n(S'PWNED'\\nS'w'\\ntR.\"")
               ("pickle.loads", "b\"cos\\nsystem\\n(S'touch PWNED'\\ntR.\""),
               ("eval", "\"open('PWNED', 'w')\""), ("exec", "\"open('PWNED', 'w')\""),
               ("marshal.loads", "b'\\xe9\\x01\\x00\\x00\\x00'"))
+CHOICES_CALLS = ("range(3)", "sorted(['b', 'a'])", "exec(\"open('PWNED','w')\")", "eval(\"[open('PWNED','w'), 'a'][1:]\")",
+                 "open('PWNED', 'w')", "__import__('antigravity')", "list(map(open, ['PWNED'], ['w']))",
+                 "getattr(__import__('os'), 'system')('touch PWNED')", "print('x', file=open('PWNED', 'w'))")
 BENIGN_DEFAULTS = ("5", "'a'", "True", "None", "0.5")
 DEFAULT_POOL = BENIGN_DEFAULTS + CALLS + ("sys.exit", "().__class__", "cdd",
                                            # arithmetic shapes (BinOp / UnaryOp / compare) around a literal-rooted dunder chain
@@ -250,6 +253,10 @@ def adv_param(draw, name):
     if draw(st.integers(0, 2)) == 2:
         p["doc_default"] = draw(st.sampled_from(DOC_DEFAULT_POOL[1:]))
         p["announce"] = draw(st.integers(0, len(DEFAULT_ANNOUNCE) - 1))
+    if draw(st.integers(0, 9)) == 9:
+        # argparse `choices=` written as a call of a builtin with literal arguments (range(3) is common; eval/exec/open
+        # are builtins too): the expression is data of the analysed source
+        p["choices"] = draw(st.sampled_from(CHOICES_CALLS))
     if draw(st.integers(0, 11)) == 11:
         # a deserialiser named as the type and serialised data as the default (`type=pickle.loads, default=b"..."` is
         # what argparse users - and cdd's own argparse emitter - write): the bytes are data of the analysed source
@@ -279,6 +286,7 @@ PURE_KINDS = ("parse_docstring", "parse_docstring_raw", "docstring_roundtrip", "
               "parse_argparse", "parse_sqlalchemy", "parse_sqlalchemy_hybrid", "parse_sqlalchemy_table",
               "parse_pydantic", "parse_json_schema", "emit", "parse_emit")
 # emit / parse_emit fan out over nine emitters (x seven parsers): drawn three times as often
+PURE_KINDS = PURE_KINDS + ("parse_route",)
 PURE_DRAW = PURE_KINDS + ("emit", "parse_emit", "emit", "parse_emit", "parse_docstring", "parse_function")
 CMD_KINDS = ("doctrans", "gen", "sync", "sync_properties", "doctrans", "gen")
 # (gen --parse sqlalchemy_table and gen --emit function fail before / after parsing on every input, for reasons that
@@ -480,12 +488,36 @@ def render_argparse(spec, name="set_cli_args"):
         if p["default"] is not None:
             kws.append("required=True")
             kws.append("default=%s" % p["default"])
-        if p["typ_in"] == "none" and p["default"] is not None:
+        if p.get("choices"):
+            kws.append("choices=%s" % p["choices"])
+        elif p["typ_in"] == "none" and p["default"] is not None:
             kws.append("choices=(%s, 'b')" % p["default"])
         lines.append("    argument_parser.add_argument(%r, %s)" % ("--" + p["name"], ", ".join(kws)))
     ret = spec.get("returns")
     lines.append("    return argument_parser%s" % (", %s" % ret["value"] if ret else ""))
     return lines
+
+
+YAML_PAYLOADS = ("!!python/object/apply:os.system ['touch PWNED']", "!!python/object/apply:builtins.open ['PWNED', 'w']",
+                 "!!python/object/new:subprocess.Popen [['touch', 'PWNED']]", "!!python/name:os.system",
+                 "!!python/module:antigravity", "!!python/object/apply:builtins.exec [\"open('PWNED','w')\"]",
+                 "plain words", "&anchor plain", "!!python/object/apply:builtins.__import__ ['sentinel_mod']")
+
+
+def render_route(spec):
+    """A bottle route function whose docstring carries an OpenAPI block in YAML (what cdd.routes.parse.bottle and the
+    OpenAPI parser read).  Payloads: python-specific YAML tags, which a non-safe loader would construct (= execute)."""
+    n = len(spec["params"])
+    pick = lambda i: YAML_PAYLOADS[(i + n + len(spec["doc"])) % len(YAML_PAYLOADS)]  # noqa: E731
+    lines = ["from bottle import Bottle", "", "rest_api = Bottle()", "", ""]
+    lines += ["@rest_api.get('/api/thing/:name')", "def read(name):", '    """', "    %s" % (spec["doc"].split("\n")[0] or "Read one"),
+              "", "    ```yml", "    responses:", "      '200':", "        description: %s" % pick(0),
+              "        content:", "          application/json:", "            schema:",
+              "              $ref: '#/components/schemas/Thing'", "      '404':", "        description: %s" % pick(1)]
+    for i, p in enumerate(spec["params"][:2]):
+        lines += ["      '%d':" % (500 + i), "        description: %s" % pick(2 + i)]
+    lines += ["    ```", "", "    :param name: the name", "    :type name: ```str```", '    """', "    return {}"]
+    return "\n".join(lines) + "\n"
 
 
 SQL_TYPES = {"int": "Integer", "str": "String", "bool": "Boolean", "float": "Float"}
@@ -651,6 +683,8 @@ def build_pure(op, spec, world):
         return o
     if what == "parse_json_schema":
         return {"kind": "parse_source", "parser": "json_schema", "source": concrete(render_json_schema(spec), world)}
+    if what == "parse_route":
+        return {"kind": "parse_route", "source": concrete(render_route(spec), world)}
     eopts = {}
     if op.get("emitter") in ("docstring", "function", "class_", "argparse_function", "sqlalchemy", "sqlalchemy_table",
                              "sqlalchemy_hybrid"):
@@ -1127,6 +1161,8 @@ def simulate(plan):
                 bump(probe, "literal_eval_default_path_with_payload", obs["literal_eval_default_payload"])
                 bump(probe, "input_eval_exception_exercised", obs["input_eval_exec"])
                 bump(probe, "prepend_exception_exercised", obs["prepend_exec"])
+                if what == "pure" and op["what"] == "parse_route":
+                    bump(probe, "route_parser_ops")
                 if what == "pure":
                     bump(probe, "pure_emit_ops" if op["what"] in ("emit", "parse_emit", "docstring_roundtrip") else
                          "pure_parse_ops")
